@@ -27,6 +27,12 @@ Definition lib_z (dg : bytes) : Z := bits2int dg.
    prehashed=False and msg = the HEX TEXT of the digest, so h1 = SHA256(ascii hex of the digest) *)
 Definition lib_nonce (d : Z) (dg : bytes) : Z := rfc6979_nonce d (sha256 (hex_ascii dg)).
 
+(* the same when the caller hands the digest over as UPPER-CASE hex text: the text, not the digest, is hashed *)
+Definition hex_digit_upper (v : Z) : byte := zb (if v <? 10 then 48 + v else 55 + v).
+Definition hex_ascii_upper (b : bytes) : bytes :=
+  flat_map (fun x => [hex_digit_upper (bz x / 16); hex_digit_upper (bz x mod 16)]) b.
+Definition lib_nonce_upper (d : Z) (dg : bytes) : Z := rfc6979_nonce d (sha256 (hex_ascii_upper dg)).
+
 (* ---------------------------------------------------------------- signing *)
 
 (* the low-S step as the source had it:  if int(s) > secp256k1_n / 2  — a FLOAT division; the binary64
@@ -55,6 +61,12 @@ Definition lib_sign_with (low : Z -> Z) (d : Z) (msg : bytes) (k : option Z) (ht
   end.
 
 Definition lib_sign := lib_sign_with lib_low_s.
+
+(* sign(TXID_IN_UPPER_CASE_HEX, key): everything as lib_sign, but the nonce is derived from the upper-case text
+   (finding hex_case_changes_nonce; only digests of at most 32 bytes reach the nonce as the caller's text) *)
+Definition lib_sign_upper (d : Z) (msg : bytes) (ht : Z) : option (Z * Z * bytes) :=
+  if (32 <? length msg)%nat then lib_sign d msg None ht
+  else lib_sign d msg (Some (lib_nonce_upper d msg)) ht.
 Definition lib_sign_prefix := lib_sign_with lib_low_s_float.      (* the tree before fix C13-1 *)
 
 (* textbook: sign, then take the smaller of s and n - s *)
